@@ -15,14 +15,14 @@ func init() {
 		Explanation: "Decides the shape of FiniteReplayer's (and its sibling's) Put/Replay: R08.1 Put enqueues only after len(topics)!=0 and ensureID succeeded, enqueues ensureID's result with the given topics, returns that same message, and returns (nil, ErrNoTopic)/(nil, err) otherwise (siblings cross-checked); " +
 			"R08.2 ensureID: manual mode returns the argument iff its ID is set, automatic mode rejects a set ID, formats the counter in base 10 onto a Clone, increments the counter by 1 on the success path only, and nothing else writes the counter; " +
 			"R08.3 Replay: a negative start index returns nil before any Send/Flush, Send happens only in the each-callback under topicsIntersect(subscription.Topics, m.topics), a Send error stops the iteration and is returned without Flush, the error-free path ends in Flush whose error is returned; R08.4 queue.each stops at the first false yield; R18.1 the buffer of a FiniteReplayer is allocated once with N slots and never resized.",
-		NotDecided: "FIFO/ring index arithmetic: which elements each(i) visits and what findIDInQueue returns for newest/evicted/absent IDs (the newest-ID defect D6 of DESIGN §5 lives here and is NOT decided), that the buffer holds exactly the last N.",
+		NotDecided: "FIFO/ring index arithmetic: which elements each(i) visits and what findIDInQueue computes for evicted/absent IDs (only the start-index protocol, R08.5, is decided), that the buffer holds exactly the last N.",
 	})
 	prop(&PropertySpec{
 		ID: "C09", Level: "other",
 		Rules: []string{"R09.1", "R09.2", "R09.3", "R09.4", "R18.4", "R08.1", "R08.3", "R08.4"},
 		Explanation: "Decides the expiry discipline of ValidReplayer: R09.1 every replayed Send is dominated by m.exp.After(now) with now the v.Now() result of this Replay call (with R09.2 this fully decides 'never replayed at or after Put time + TTL'); R09.2 the stored expiry is now.Add(v.ttl) with now the v.Now() result of this Put, the same now feeding the GC decision; " +
 			"R09.3 every dequeue is dominated by the not-After edge of the head element's expiry (only expired heads are collected); R09.4 when count==len(buf) a resize to at least twice the length (floored by a positive constant) precedes enqueue; R18.4 the collection loop exits only on empty or unexpired head; plus the shared Put/Replay shape rules.",
-		NotDecided: "that resize/each/findIDInQueue preserve order and content (index arithmetic; D6), shrink thresholds, behaviour under a decreasing clock.",
+		NotDecided: "that resize/each/findIDInQueue preserve order and content beyond R08.5/R18.5 (index arithmetic), shrink thresholds, behaviour under a decreasing clock.",
 	})
 	prop(&PropertySpec{
 		ID: "C18", Level: "other",
